@@ -64,6 +64,29 @@ def plans(tier, seed):
     return out
 
 
+_PF = [0]
+
+
+def _convert(conv, problem, plan, agents, flag, via_file):
+    """the grouping step alone, or the public entry point convert_plan on a real plan file (the layout of the file written
+    by export_plan is not part of the property and is not asserted)"""
+    from pddl_plus_parser.models import ActionCall
+    if not via_file:
+        return conv._create_joint_actions(problem, [(ActionCall(n, list(a)), agent_of((n, a))) for n, a in plan], list(agents), flag)
+    import os
+    from pathlib import Path
+    _PF[0] += 1
+    src = Path(lib.tmpdir()) / f"c15_{os.getpid()}_{_PF[0]}.solution"
+    src.write_text("".join("(" + " ".join([n] + list(a)) + ")\n" for n, a in plan))
+    try:
+        return conv.convert_plan(problem, src, list(agents), flag)
+    finally:
+        try:
+            os.unlink(src)
+        except OSError:
+            pass
+
+
 def run_convert(task):
     from pddl_plus_parser.models import ActionCall
     from pddl_plus_parser.multi_agent import PlanConverter
@@ -92,8 +115,7 @@ def run_convert(task):
             world.problem.initial_state_predicates = state.state_predicates
             world.problem.initial_state_fluents = state.state_fluents
             conv = PlanConverter(world.domain)
-            plan_actions = [(ActionCall(n, list(a)), agent_of((n, a))) for n, a in plan]
-            joint = conv._create_joint_actions(world.problem, plan_actions, list(agents), flag)
+            joint = _convert(conv, world.problem, plan, agents, flag, task.get("via_file"))
             return [[(ac.name, list(ac.parameters)) for ac in j.actions] for j in joint]
 
         def on_path(ctx: Ctx, pr):
@@ -209,8 +231,7 @@ def concrete_convert(task, atoms, fls):
     _, _, ev = seqsem.eval_state_exact(comp, seq[3], seq[4], list(atoms), list(fls), atoms, fls)
     out = {"sequential_plan_valid": bool(ev(z3.And(seq[0], seq[1], seq[2])))}
     try:
-        joint = PlanConverter(world.domain)._create_joint_actions(
-            world.problem, [(ActionCall(n, list(a)), agent_of((n, a))) for n, a in plan], list(task["agents"]), task["flag"])
+        joint = _convert(PlanConverter(world.domain), world.problem, plan, task["agents"], task["flag"], task.get("via_file"))
     except Exception as e:  # noqa
         out["observed"] = f"{type(e).__name__}: {e}"
         out["disagree"] = out["sequential_plan_valid"]
@@ -360,7 +381,7 @@ def tasks_for(tier, seed):
                 continue
             for flag in (True, False):
                 tasks.append({"kind": "convert", "plan": p, "agents": agents, "flag": flag, "cap": 9 if tier == "quick" else 12,
-                              "max_paths": 3000 if tier == "quick" else 30000})
+                              "max_paths": 3000 if tier == "quick" else 30000, "via_file": len(tasks) % 3 == 0})
     for shape in ([([1, 1], "a1")], [([2], "a2"), ([1, 1], "a1")], [([1, 1, 1], "a1")]):
         for prefix in ("", "0: ", "12: "):
             tasks.append({"kind": "extract", "shape": shape, "agents": ["a1", "a2"], "prefix": prefix})
